@@ -723,6 +723,15 @@ def gen_full(rng, tier):
     return prog
 
 
+def gen_lim(rng, tier):
+    """The limit parameter of from_traceback / print_exception against the traceback module's."""
+    prog = gen_ei(rng, tier, depths=(2, 3, 4, 6))
+    prog["kind"] = "lim"
+    prog["limit"] = rng.choice([1, 1, 2, 3, 5, 50, 0, -1, -2])
+    prog["via"] = rng.choice(["arg", "arg", "sys"])          # explicit argument, or sys.tracebacklimit
+    return prog
+
+
 def gen_sess(rng, tier):
     """Several exceptions in one process through module files that are rewritten (and usually reloaded)
     in between: the source text linecache serves changes over time.  Per step the implementation is
@@ -812,6 +821,8 @@ def generate(rng, tier, n):
             yield gen_stack(rng, tier)
         elif r < 0.85:
             yield gen_full(rng, tier)
+        elif r < 0.87:
+            yield gen_lim(rng, tier)
         else:
             yield gen_ei(rng, tier)
 
@@ -1035,6 +1046,38 @@ def _capture(exc, tb, step, d, mods):
     given = full if step.get("keep_nl") else full[:-1]       # with or without the interpreter's final newline
     obs["fulltext"] = given
     obs["parsed_full"] = _parse_obs(given)[0]
+    if step.get("limit") is not None:
+        k = step["limit"]
+        kw = {}
+        if step["via"] == "sys":
+            sys.tracebacklimit = k
+        else:
+            kw["limit"] = k
+        try:
+            # tbutils first
+            buf = io.StringIO()
+            tbutils.print_exception(et, exc, tb, file=buf, **kw)
+            lt = tbutils.TracebackInfo.from_traceback(tb, **kw)
+            obs["lim_print"] = buf.getvalue()
+            obs["lim_frames"] = [{"path": c["module_path"], "lineno": c["lineno"], "func": c["func_name"], "line": c["line"]}
+                                 for c in lt.to_dict()["frames"]]
+            lsumm = traceback.extract_tb(tb, **kw)
+            obs["lim_live"] = [{"file": fs.filename, "lineno": fs.lineno, "name": fs.name, "raw": fs._original_line} for fs in lsumm]
+            lfull = "".join(traceback.format_exception(et, exc, tb, **kw))
+            lno = (("Traceback (most recent call last):\n" if lsumm else "") +
+                   "".join(traceback.format_list([(fs.filename, fs.lineno, fs.name, fs._original_line) for fs in lsumm])) + shown)
+            fl2, nl2, j2 = lfull.split("\n"), lno.split("\n"), 0
+            for line in fl2:
+                if j2 < len(nl2) and line == nl2[j2]:
+                    j2 += 1
+                elif not (line and set(line) <= set(" ~^")):
+                    raise RuntimeError("limited interpreter text is not the marker-free text plus marker lines")
+            if j2 != len(nl2):
+                raise RuntimeError("limited marker-free text is not a subsequence of the interpreter's text")
+            obs["lim_interp"] = lno
+        finally:
+            if step["via"] == "sys":
+                del sys.tracebacklimit
     # ---- later: the file changes again; the ExceptionInfo object is asked once more ----------
     if "after" in step:
         _edit(d, step.get("after"), step, mods)
@@ -1113,9 +1156,10 @@ def _run_program(case):
     os.makedirs(d)
     if case["kind"] == "stack":
         return _run_stack(case, d)
-    if case["kind"] in ("ei", "full"):
+    if case["kind"] in ("ei", "full", "lim"):
         steps = [{"mode": "load", "modules": case["modules"], "entry": case["entry"], "expect": case["expect"],
-                  "full": case.get("full"), "first": "dict", "keep_nl": case.get("keep_nl")}]
+                  "full": case.get("full"), "first": "dict", "keep_nl": case.get("keep_nl"),
+                  "limit": case.get("limit"), "via": case.get("via")}]
         names = [m for m, _ in case["modules"]]
     else:
         steps, names = case["steps"], case["mods"]
@@ -1143,7 +1187,7 @@ def _run_program(case):
             out.append(_capture(exc, tb, step, d, names))
             del exc, tb
         root = os.path.dirname(d)
-        if case["kind"] in ("ei", "full"):
+        if case["kind"] in ("ei", "full", "lim"):
             out[0]["root"] = root
             return out[0]
         return {"steps": out, "root": root}
@@ -1218,6 +1262,16 @@ def to_coq(case, obs):
         g = obs["groups"]
         term = "CaseRe %s %s %s" % (cN(case["which"]), I.t(case["s"]),
                                     "None" if g is None else "(Some %s)" % clist(I.t(x) for x in g))
+    elif kind == "lim":
+        def lv(ls):
+            return clist("mkLive %s %s %s %s" % (I.s(l["file"]), cN(l["lineno"]), I.s(l["name"]), I.s(l["raw"])) for l in ls)
+        e = obs["exc"]
+        exc = "(mkExc %s %s %s %s %s)" % ("None" if e["module"] is None else "(Some %s)" % I.s(e["module"]), I.s(e["qualname"]), I.s(e["name"]),
+                                          "None" if e["str"] is None else "(Some %s)" % I.t(e["str"]), I.t(e["shown"]))
+        frames = clist("mkCpObs %s %s %s %s" % (I.s(f["path"]), cN(f["lineno"]), I.s(f["func"]), I.s(f["line"])) for f in obs["lim_frames"])
+        k = case["limit"]
+        term = "CaseLim %s %s (%d)%%Z %s %s %s %s %s" % (lv(obs["live"]), exc, k, cbool(case["via"] == "sys"), lv(obs["lim_live"]),
+                                                        I.t(obs["lim_interp"]), frames, I.t(obs["lim_print"]))
     elif kind == "full":
         live = clist("mkLive %s %s %s %s" % (I.s(l["file"]), cN(l["lineno"]), I.s(l["name"]), I.s(l["raw"])) for l in obs["live"])
         e = obs["exc"]
@@ -1270,6 +1324,9 @@ def corrupt(case, obs):
     if kind == "stack":
         bad["fmt"] = bad["fmt"] + "x"
         return bad
+    if kind == "lim":
+        bad["lim_print"] = bad["lim_print"] + "x"
+        return bad
     if kind == "full":
         if "err" in bad["parsed_full"]:
             return None
@@ -1295,6 +1352,8 @@ def nontrivial(case, obs):
         return case["bad"] is None and len(fr) >= 2 and any(not f["src"] for f in fr)
     if case["kind"] == "ei":
         return len(obs["frames"]) >= 3
+    if case["kind"] == "lim":
+        return 0 < case["limit"] < len(obs["live"])
     if case["kind"] == "full":
         return len(obs["live"]) >= 3 and obs["fulltext"].rstrip("\n") != obs["interp"]      # has marker lines
     if case["kind"] == "stack":
@@ -1330,6 +1389,8 @@ def distribution(d, case, obs):
         inc("rt_input_type", "bytes" if case.get("bytes") else "str")
     elif kind == "re":
         inc("re_outcome", "%s:%s" % (("frame", "se_frame", "underline", "repeat")[case["which"]], "match" if obs["groups"] is not None else "no"))
+    elif kind == "lim":
+        inc("lim", "%s:%s" % (case["via"], case["limit"]))
     elif kind == "full":
         inc("full_marker_lines", str(min(10, obs["fulltext"].count("\n") - obs["interp"].count("\n"))))
         inc("full_outcome", "parsed" if "err" not in obs["parsed_full"] else obs["parsed_full"]["err"])
@@ -1367,6 +1428,8 @@ def distribution(d, case, obs):
 def sample(case, obs):
     if case["kind"] == "re":
         return {"case": case, "groups": obs["groups"]}
+    if case["kind"] == "lim":
+        return {"kind": "lim", "limit": case["limit"], "via": case["via"], "print": obs["lim_print"].replace(obs["root"], "<tmp>")}
     if case["kind"] == "full":
         return {"kind": "full", "text": obs["fulltext"].replace(obs["root"], "<tmp>"), "parsed": obs["parsed_full"]}
     if case["kind"] == "stack":
